@@ -200,3 +200,94 @@ func execC08Trickle(t *hx.Toks) string {
 	}
 	return log.render()
 }
+
+// c08.hbperiod <workers> <timeoutMs> <count> <n> (<size> <kind>)*n
+//
+// The heartbeat period read off the trace. FlushTimeout is far above 100 ms; n (< count) events are added
+// at once and stay in the current batch. A goroutine of the harness sleeping 100 ms per tick logs `k`
+// (reference clock in the same process: load slows both sleepers alike); the case ends after 5 heartbeat
+// iterations or 14 clock ticks, whichever comes first — it never waits for the flush. Oracle: never more
+// than 4 clock ticks without a heartbeat iteration (the bound `timeout + H` of the staleness clause needs a
+// heartbeat period H that does not grow with FlushTimeout).
+func init() {
+	execs["c08.hbperiod"] = execC08HbPeriod
+}
+
+func execC08HbPeriod(t *hx.Toks) string {
+	workers, timeoutMs, count, n := t.Int(), t.Int(), t.Int(), t.Int()
+	if t.Err != nil || n < 0 || n > 1000 {
+		return "bad-case"
+	}
+	specs := make([]*evSpec, n)
+	evs := map[uint64]*evSpec{}
+	for i := range specs {
+		specs[i] = &evSpec{id: uint64(i + 1), size: t.Int(), kind: t.Int()}
+		evs[specs[i].id] = specs[i]
+	}
+	if t.Err != nil || !t.Done() || workers < 1 || timeoutMs < 1 || timeoutMs > 3600000 || count <= n {
+		return "bad-case"
+	}
+	log := newTLog()
+	rig := newRig(log, false, make(chan note, 16), evs)
+	rig.freeRun = true
+	batcher := pipeline.NewBatcher(pipeline.BatcherOptions{
+		PipelineName: "verif", OutputType: "c08hb",
+		OutFn: func(_ *pipeline.WorkerData, batch *pipeline.Batch) {
+			seq, _ := rig.outEnter(batch)
+			rig.outLeave(seq, batch)
+		},
+		Controller: rig, Workers: workers, BatchSizeCount: count,
+		FlushTimeout: time.Duration(timeoutMs) * time.Millisecond,
+		MetricCtl:    metric.NewCtl("", prometheus.NewRegistry(), time.Minute, 0),
+	})
+	rig.id = pipeline.VerifBatcherID(batcher)
+	rig.batcher = batcher
+	uninstall := installSinks(rig)
+	defer uninstall()
+	ctx, cancel := context.WithCancel(context.Background())
+	defer cancel()
+	clockStop := make(chan struct{})
+	clockDone := make(chan struct{})
+	var ticks atomic.Int64
+	go func() {
+		defer close(clockDone)
+		for {
+			time.Sleep(100 * time.Millisecond)
+			select {
+			case <-clockStop:
+				return
+			default:
+			}
+			log.add(&tEntry{tok: "k"})
+			ticks.Add(1)
+		}
+	}()
+	batcher.Start(ctx)
+	for _, s := range specs {
+		batcher.Add(mkEvent(s))
+	}
+	countH := func() int {
+		log.mu.Lock()
+		defer log.mu.Unlock()
+		c := 0
+		for _, e := range log.entries {
+			if e.tok == "h" {
+				c++
+			}
+		}
+		return c
+	}
+	for countH() < 5 && ticks.Load() < 14 {
+		time.Sleep(2 * time.Millisecond)
+	}
+	close(clockStop)
+	stopped := make(chan struct{})
+	go func() { batcher.Stop(); close(stopped) }()
+	select {
+	case <-stopped:
+	case <-time.After(10 * time.Second):
+		log.add(&tEntry{tok: "panic:stuck"})
+	}
+	<-clockDone
+	return log.render()
+}
